@@ -458,12 +458,19 @@ func c12(c *ctx) {
 		}
 		for _, fin := range []bool{true, false} {
 			for _, op := range []int{1, 2} {
-				for _, rsv := range []int{0, 1, 2, 3} {
+				for _, rsv := range []int{0, 1, 2, 3, 4, 8} {
 					key := fmt.Sprintf("helper/%s/%v/%d/%d", pn, fin, op, rsv)
+					// (4, 8: frames put together by hand, whose header length field is 0 / half the payload:
+					// the helpers take the message from the payload slice)
+					hlen := int64(len(msg))
+					if rsv >= 4 {
+						hlen = []int64{0, int64(len(msg) / 2)}[rsv/8]
+						rsv = 0
+					}
 					if !vh.Only(key) {
 						continue
 					}
-					f := ws.Frame{Header: ws.Header{Fin: fin, Rsv: byte(rsv), OpCode: ws.OpCode(op), Length: int64(len(msg)), Masked: false}, Payload: append([]byte(nil), msg...)}
+					f := ws.Frame{Header: ws.Header{Fin: fin, Rsv: byte(rsv), OpCode: ws.OpCode(op), Length: hlen, Masked: false}, Payload: append([]byte(nil), msg...)}
 					// the API forms rotate: package-level functions, an own Helper (other level), the
 					// Buffer variants with one buffer per direction
 					hn++
